@@ -232,7 +232,7 @@ class TypeState:
         if lv is not None and lv.is_list:
           return Val(lv.kind, False, lv.pairs)
       d = dotted(e.func)
-      if d in ('list', 'sorted', 'reversed', 'copy.deepcopy', 'copy.copy') and len(e.args) >= 1:
+      if d in ('list', 'sorted', 'reversed', 'copy.deepcopy', 'copy.copy', 'tuple', 'itertools.islice', 'islice', 'iter') and len(e.args) >= 1:
         return self._eval(env, e.args[0])
       return None
     if isinstance(e, ast.Subscript):
